@@ -1,6 +1,8 @@
 import Jp.Lemmas.Valid
 import Jp.Props.C03
 import Jp.Lemmas.C04Helpers
+import Jp.Model.Iter
+import Jp.Lemmas.Iter
 /-
   C04 — A pointer is exactly its list of decoded tokens: build/iterate round-trips.
   `newB s` = encoded text of `Token::new(s)`, `decB t` = decoded text of token `t`.
@@ -17,6 +19,7 @@ open Jp Jp.Spec
 -- tokens_fromRaw count_fromRaw text_fromRaw fromTokens_tokens fromRaw_injective decoded_tokens_injective
 -- front_eq back_eq getToken_eq components_eq isRoot_iff withLeading_tokens withTrailing_tokens
 -- concat_tokens ofToken_tokens ofUsize_tokens decimal_validTok
+-- tokens_iter_eq tokens_iter_fused components_iter_eq
 
 /-- `from_tokens(L).tokens()`, decoded, is `L` again -/
 theorem tokens_fromRaw (L : List Bytes) : (tokens (fromTokens (L.map newB))).map decB = L := by
@@ -193,6 +196,36 @@ theorem ofUsize_tokens (n : Nat) :
     simp [ofUsize, ofToken, Token.ofInt, decimalInt, hn]
   rw [e]
   exact ofToken_tokens _ (decimal_validTok n).1
+
+/-! ### the iterators as state machines (`Jp.Model.Iter`) -/
+
+/-- collecting `Pointer::tokens()` by repeated `next()` yields the token list, for every byte string -/
+theorem tokens_iter_eq (p : Bytes) : Tokens.collect p = tokens p := by
+  unfold Tokens.collect tokens
+  exact drain_tokens_new (p.length + 2) p (by omega)
+
+/-- the token iterator is fused: the finished state is a fixed point of `next`, and once the iterator
+    of `p` returned `None` at call `n + 1` it returns `None` at every later call -/
+theorem tokens_iter_fused (p : Bytes) (n : Nat) :
+    (Split.next ⟨none⟩) = (none, ⟨none⟩) ∧
+    ((Tokens.next (advance Tokens.next n (Tokens.new p))).1 = none →
+      ∀ m, (Tokens.next (advance Tokens.next (n + m) (Tokens.new p))).1 = none) := by
+  refine ⟨rfl, fun h m => ?_⟩
+  rw [advance_add, Split.next_eq_none h]
+  unfold Tokens.next
+  rw [advance_split_none]
+  rfl
+
+/-- collecting `Pointer::components()` yields `Root` followed by the tokens -/
+theorem components_iter_eq (p : Bytes) : Components.collect p = components p := by
+  unfold Components.collect components
+  rw [drain_components_new, ← tokens_iter_eq]
+  rfl
+
+example : Tokens.collect [47, 97, 47] = [[97], []] := by decide
+example : Components.collect [] = [.root] := by decide
+example : Components.collect [47, 126, 49, 47] = [.root, .token [126, 49], .token []] := by decide
+example : Tokens.collect [97, 47, 98] = [[98]] := by decide
 
 example : tokens [] = [] := by decide
 example : tokens [47] = [[]] := by decide
